@@ -253,6 +253,14 @@ def tables() -> dict:
                     except Exception:  # noqa
                         walk = None
                     break
+    # SubtypeUnpackerBuilder._get_variants_attr: is the registry attribute name built from the format name?
+    per_format = False
+    for node in ast.walk(ast.parse(_src("mashumaro/core/meta/types/unpack.py"))):
+        if isinstance(node, ast.ClassDef) and node.name == "SubtypeUnpackerBuilder":
+            for sub in ast.walk(node):
+                if isinstance(sub, ast.Assign) and any(isinstance(x, ast.Attribute) and x.attr == "_variants_attr" for x in sub.targets):
+                    per_format = "format_name" in ast.unparse(sub.value)
+    t["subtypeRegistryPerFormat"] = per_format
     t["mroWalkSample"] = walk if walk is not None else []
     t["mroFarthestFirst"] = bool(walk) and walk == sorted(walk, reverse=True)
     t["cacheGuardOwnDict"] = len(guards) == 2 and all(g[1] == "if not '{}' in cls.__dict__:" for g in guards)
@@ -308,6 +316,8 @@ def render(t: dict) -> str:
     L.append("/-- `dataclass_fields` walks `cls.__mro__` from the farthest ancestor to the nearest, skipping the class itself -/")
     L.append("def mroFarthestFirst : Bool := " + ("true" if t["mroFarthestFirst"] else "false"))
     L.append("def mroWalkSample : List Nat := [" + ", ".join(str(x) for x in t["mroWalkSample"]) + "]")
+    L.append("/-- `SubtypeUnpackerBuilder._get_variants_attr` builds the registry attribute name from the format name -/")
+    L.append("def subtypeRegistryPerFormat : Bool := " + ("true" if t["subtypeRegistryPerFormat"] else "false"))
     L.append("")
     L.append("end Mashu.Generated")
     return "\n".join(L) + "\n"
